@@ -20,8 +20,8 @@
 -- Not modelled HERE: the rest of `verify()` after the channel has been built, the element conversions of the
 -- public-coin seed, and the AIR's own callbacks.  WinterProofs/C06.lean closes that gap for the instantiations the
 -- executable reference verifier covers (on top of the theorems of this file, which WinterProofs/RefVerifier.lean
--- imports); for the others (BLAKE3 / SHA3 hashers, the 128-bit field, AIRs with a Lagrange kernel column / GKR
--- proof) it is covered by the fuzz correspondence of harness/src/bin/c06.rs only.
+-- imports); for the others (BLAKE3 / SHA3 hashers, the 128-bit field, GKR verifiers other than the family's
+-- dummy one) it is covered by the fuzz correspondence of harness/src/bin/c06.rs only.
 import WinterProofs.Lemmas.C06Front
 import WinterProofs.Lemmas.C06Data
 
